@@ -36,11 +36,15 @@ TBase(id, N) ==
 
 MkProbe(d, s) ==
   LET N == d.method.N
-  IN [X |-> [k \in 1..N + 1 |-> [i \in 1..Len(d.states) |-> PV(s, 1, k, i)]],
-      U |-> [k \in 1..N |-> [i \in 1..Len(d.controls) |-> PV(s, 2, k, i)]],
-      V |-> [i \in 1..Len(d.vars) |-> [c \in 1..PCols(d.vars[i].kind, N) |-> PV(s, 3, i, c)]],
+  IN [X |-> Tup([k \in 1..N + 1 |-> Tup([i \in 1..Len(d.states) |-> PV(s, 1, k, i)])]),
+      U |-> Tup([k \in 1..N |-> Tup([i \in 1..Len(d.controls) |-> PV(s, 2, k, i)])]),
+      V |-> Tup([i \in 1..Len(d.vars) |-> Tup([c \in 1..PCols(d.vars[i].kind, N) |-> PV(s, 3, i, c)])]),
       T |-> d.T.v, t0 |-> d.t0.v,
-      gv |-> [Tl |-> <<>>, t0l |-> <<>>]]
+      gv |-> [Tl |-> <<>>, t0l |-> <<>>],
+      \* direct collocation: intermediate start states, helper states and algebraic values at the collocation times
+      XI |-> Tup([k \in 1..N |-> Tup([l \in 1..d.method.M |-> Tup([i \in 1..Len(d.states) |-> PV(s, 4, k + l, i)])])]),
+      XR |-> Tup([k \in 1..N |-> Tup([l \in 1..d.method.M |-> Tup([j \in 1..d.method.degree |-> Tup([i \in 1..Len(d.states) |-> PV(s, 5 + j, k + 2 * l, i)])])])]),
+      ZR |-> Tup([k \in 1..N |-> Tup([l \in 1..d.method.M |-> Tup([j \in 1..d.method.degree |-> Tup([i \in 1..Len(d.algs) |-> PV(s, 8 + j, k + 2 * l, i)])])])])]
 
 \* horizon kinds: "num" both numbers; "fT" free T; "ft0" free t0; "fb" both free; "pT" T given by a parameter
 WithHorizon(d, hz, t0v, Tv) ==
@@ -51,15 +55,22 @@ WithHorizon(d, hz, t0v, Tv) ==
     [] hz = "pT"  -> [d EXCEPT !.t0 = Num(t0v), !.T = Par(Len(d.params) + 1, Tv),
                                !.params = Append(d.params, [kind |-> "g", val |-> <<Tv>>])]
 
+SchemeOf(id) == CASE id = "radau1" -> <<"radau", 1>> [] id = "radau2" -> <<"radau", 2>> [] id = "legendre1" -> <<"legendre", 1>>
 MkDecl(s) ==
   LET N == s.N
       d0 == Rhs(s.rhs, N)
-      d1 == [d0 EXCEPT !.method = Method(s.meth, N, s.M, s.intg, GridOf(s.grid, N)),
-                       !.cons = [i \in 1..Len(s.cons) |-> ConOf(s.cons[i])],
-                       !.obj = [i \in 1..Len(s.obj) |-> ObjOf(s.obj[i])],
+      d1 == [d0 EXCEPT !.method = IF s.meth = "DC" THEN MethodDC(N, s.M, SchemeOf(s.intg)[1], SchemeOf(s.intg)[2], GridOf(s.grid, N))
+                                  ELSE Method(s.meth, N, s.M, s.intg, GridOf(s.grid, N)),
+                       !.cons = Tup([i \in 1..Len(s.cons) |-> ConOf(s.cons[i])]),
+                       !.obj = Tup([i \in 1..Len(s.obj) |-> ObjOf(s.obj[i])]),
                        !.quads = IF \E i \in 1..Len(s.obj) : s.obj[i] = "o6" THEN <<Q1>> ELSE <<>>,
-                       !.reads = <<Read("C01.b", "sample", X(1), "control"), Read("C01.b", "sample", X(1), "integrator"),
-                                   Read("C06.e", "sample", Tm, "integrator")>>]
+                       !.reads = IF s.meth = "DC"
+                                 THEN <<Read("C02.s", "sample", X(1), "control"), Read("C02.s", "sample", X(1), "integrator"),
+                                        Read("C02.s", "sample", X(1), "roots"), Read("C06.e", "sample", Tm, "roots")>>
+                                      \o (IF Len(d0.algs) > 0 THEN <<Read("C02.s", "sample", Z(1), "roots"), Read("C02.s", "sample", Z(1), "integrator"),
+                                                                      Read("C02.s", "sample", Z(1), "control")>> ELSE <<>>)
+                                 ELSE <<Read("C01.b", "sample", X(1), "control"), Read("C01.b", "sample", X(1), "integrator"),
+                                        Read("C06.e", "sample", Tm, "integrator")>>]
   IN WithHorizon(d1, s.hz, IF s.seed % 2 = 0 THEN One ELSE Q(-1, 2), TBase(s.grid, N))
 
 (***************************************************************************)
@@ -77,7 +88,7 @@ GridG(s) ==
       G0 == IF s.grid = "free" THEN FreeG ELSE WithLocal(GridOf(s.grid, N), s.lt0, s.lT)
       T == TBase(IF s.grid = "free" THEN "uni" ELSE s.grid, N)
       decl == IF s.grid = "free"
-              THEN CumSum(Zero, [k \in 1..N |-> Mul(T, Q(IF k % 2 = 1 THEN 1 ELSE 2, (3 * N - (N % 2)) \div 2))], 1)
+              THEN CumSum(Zero, Tup([k \in 1..N |-> Mul(T, Q(IF k % 2 = 1 THEN 1 ELSE 2, (3 * N - (N % 2)) \div 2))]), 1)
               ELSE Declared(G0, N, Zero, T)
   IN CASE s.bnd = "none"  -> G0
        [] s.bnd = "minlo" -> WithMin(G0, Mul(MinLen(decl), Q(1, 2)))
@@ -101,7 +112,7 @@ MkProbeG(d, s) ==
       t0 == d.t0.v
       T == d.T.v
       decl == IF G.kind = "free"
-              THEN CumSum(t0, [k \in 1..N |-> Mul(T, Q(IF k % 2 = 1 THEN 1 ELSE 2, (3 * N - (N % 2)) \div 2))], 1)
+              THEN CumSum(t0, Tup([k \in 1..N |-> Mul(T, Q(IF k % 2 = 1 THEN 1 ELSE 2, (3 * N - (N % 2)) \div 2))]), 1)
               ELSE Declared(G, N, t0, T)
       gv0 == GvOf(decl, N)
       \* perturb the pert-th *existing* grid variable: T_local entries first, then t0_local entries
@@ -133,6 +144,10 @@ Space ==
          {s \in [rhs : RhsIds, meth : {"MS", "SS"}, intg : {"rk", "expl_euler"}, N : 1..MaxN, M : 1..MaxM,
                  grid : {"uni", "geo", "geoL", "fun"}, hz : {"num", "fT", "ft0", "fb", "pT"},
                  seed : {Seed, Seed + 1}, cons : {<<>>}, obj : {<<>>}] : Wellformed(s)}
+    [] Family = "C02" ->
+         {s \in [rhs : {"R1", "R2", "R3", "R4", "R6"}, meth : {"DC"}, intg : {"radau1", "radau2", "legendre1"}, N : 1..MaxN, M : 1..MaxM,
+                 grid : {"uni", "geo", "fun"}, hz : {"num", "fT", "fb"},
+                 seed : IF Thorough THEN {Seed, Seed + 1} ELSE {Seed}, cons : {<<>>, <<"kR", "k7">>, <<"kS", "k1">>}, obj : {<<>>, <<"o6", "o1">>}] : Wellformed(s)}
     [] Family = "C04" ->
          {s \in [rhs : {"R2", "R3"}, meth : {"MS", "SS"}, intg : {"rk"}, N : 1..MaxN, M : 1..MaxM,
                  grid : {"uni", "fun"}, hz : {"num", "fT"},
@@ -168,7 +183,7 @@ Emit == LET d == IF Family = "C06" THEN MkDeclG(sc) ELSE MkDecl(sc)
 PlacementOK ==
   LET d == IF Family = "C06" THEN MkDeclG(sc) ELSE MkDecl(sc)
   IN \A i \in 1..Len(d.cons) :
-        EmittedPoints(d.cons[i], d.method.N, d.method.M, {}) = DeclaredPoints(d.cons[i], d.method.N, d.method.M)
+        EmittedPoints(d.cons[i], d.method.N, d.method.M, d.method.degree, {}) = DeclaredPoints(d.cons[i], d.method.N, d.method.M, d.method.degree)
 
 Post == /\ ndJsonSerialize(IOEnv.OUT_FILE, TLCGet(1))
         /\ PrintT(<<"emitted", Len(TLCGet(1))>>)
